@@ -2,7 +2,8 @@
  * Input: one sequence per line:
  *    <flagsA> <flagsB> <flagsC> : <op><task><body><stack> <op><task><body><stack> ...
  * where flags are decimal TASK_FLAG_* masks, op in {x,p,r,e}, task in
- * {A,B,C}, body a digit (1..9), stack a digit (0..2).
+ * {A,B,C}, body a digit (1..9), stack a digit (0..2); a body id above 9 is
+ * written <op><task>#<number>/<stack>.
  * Output: one line per sequence with the return code of each op until (and
  * including) the first failing one: e.g. "0 0 -1".  stderr is silenced. */
 #include <stdio.h>
@@ -41,9 +42,18 @@ main(void)
 		while (*p && *p != '\n') {
 			if (*p == ' ') { p++; continue; }
 			char op = p[0], tk = p[1];
-			uint32_t body = (uint32_t) (p[2] - '0');
-			int st = p[3] - '0';
-			p += 4;
+			uint32_t body;
+			int st;
+			if (p[2] == '#') {
+				char *end;
+				body = (uint32_t) strtoul(p + 3, &end, 10);
+				st = end[1] - '0';
+				p = end + 2;
+			} else {
+				body = (uint32_t) (p[2] - '0');
+				st = p[3] - '0';
+				p += 4;
+			}
 			uint32_t id = tk == 'A' ? 10 : tk == 'B' ? 20 : 30;
 			struct task *task = task_find(info.tasks, id);
 			int ret;
